@@ -62,6 +62,8 @@ pub struct Faults {
     pub best_fail: usize,
     /// answer this many more transaction RPCs, then take the RPC interface down (rpc_up = false)
     pub rpc_down_after: Option<usize>,
+    /// answer the transaction RPCs with these global indices with a bare HTTP 503 (bitcoind overloaded: "Work queue depth exceeded")
+    pub rpc_http503_at: HashSet<usize>,
 }
 
 #[derive(Clone)]
@@ -284,6 +286,20 @@ impl jsonrpc::client::Transport for SimTransport {
     fn send_request(&self, req: jsonrpc::Request) -> Result<jsonrpc::Response, jsonrpc::Error> {
         // crash points immediately before / after every node RPC (never while holding the node's own lock)
         crate::conc::rpc_yield();
+        {
+            // a bare HTTP error is no verdict about the transaction: the transport reports it as its own error kind
+            let mut node = self.0.lock().unwrap();
+            let i = node.rpc_calls;
+            if node.faults.rpc_http503_at.remove(&i) {
+                node.rpc_calls += 1;
+                if req.method == "sendrawtransaction" || req.method == "getrawtransaction" {
+                    let txid = crate::simnode::txid_zero();
+                    node.rpc_log.push(RpcLogEntry { method: if req.method == "sendrawtransaction" { "send" } else { "get" }, txid,
+                                                    verdict: "err".into(), code: 503, tid: std::thread::current().id(), taken: false });
+                }
+                return Err(jsonrpc::Error::Transport(Box::new(jsonrpc::simple_http::Error::HttpErrorCode(503))));
+            }
+        }
         teos_common::verif::crashpoint("rpc:before");
         let r = self.handle(req);
         teos_common::verif::crashpoint("rpc:after");
